@@ -54,8 +54,8 @@ Proof. intros d b H. apply read_frames_plain; [exact H|lia]. Qed.
    (last key of block i <= separator i < first key of block i+1, first ordinals = prefix sums).
    For every block length, number of keys, key length and byte content. *)
 Theorem C15_block_index : forall V (block_len : N) (kvs : smap V), ssorted (keys kvs) = true ->
-  exists d Bs, build block_len kvs = Some (d, N.of_nat (length kvs)) /\ concat Bs = kvs /\ dict_rel 0 d Bs.
-Proof. exact @build_dict_rel. Qed.
+  exists d Bs, build ORDER_FIXED block_len kvs = Some (d, N.of_nat (length kvs)) /\ concat Bs = kvs /\ dict_rel 0 d Bs.
+Proof. exact (fun V => @build_dict_rel V ORDER_FIXED). Qed.
 
 (* the shortened separator (find_shorter_str_in_between) stays between its neighbours *)
 Theorem C15_separator_between : forall l r, blt l r = true ->
@@ -64,19 +64,19 @@ Proof. exact find_shorter_between. Qed.
 
 (* streaming the whole dictionary returns exactly the inserted pairs, across all block flushes *)
 Theorem C15_roundtrip : forall V (block_len : N) (kvs : smap V), keys_ok kvs ->
-  exists d, build block_len kvs = Some (d, N.of_nat (length kvs)) /\ stream_all d = Some kvs.
-Proof. exact @stream_build. Qed.
+  exists d, build ORDER_FIXED block_len kvs = Some (d, N.of_nat (length kvs)) /\ stream_all RANGE_FIXED d = Some kvs.
+Proof. exact (fun V => @stream_build V ORDER_FIXED RANGE_FIXED). Qed.
 
 (* get / term_ord_or_next / term_ord through the block index and the in-block search agree with the
    sorted map; beyond the last key the implementation's successor is u64::MAX where the map's is `len` *)
 Theorem C15_lookups : forall V (block_len : N) (kvs : smap V) key, keys_ok kvs ->
-  exists d, build block_len kvs = Some (d, N.of_nat (length kvs)) /\
+  exists d, build ORDER_FIXED block_len kvs = Some (d, N.of_nat (length kvs)) /\
     get d key = Some (sm_get kvs key) /\
     (exists h, term_ord_or_next d key = Some h /\
                (h = sm_ord_or_next (keys kvs) key \/
                 (h = Next U64_MAX /\ sm_ord_or_next (keys kvs) key = Next (N.of_nat (length kvs))))) /\
     term_ord d key = Some (sm_ord (keys kvs) key).
-Proof. exact @lookups_build. Qed.
+Proof. exact (fun V => @lookups_build V ORDER_FIXED). Qed.
 
 (* bound handling of the streamer (every kind of lower/upper bound, empty and inverted ranges):
    over the sorted pairs it is given, Streamer::advance returns exactly the sub-map *)
@@ -93,13 +93,38 @@ Theorem C15_merge : forall V (vadd : V -> V -> V) (inputs : list (smap V)), Fora
 Proof. exact @heap_merge_sorted_union. Qed.
 
 (* ---- rejection of keys that are out of order ---- *)
-(* After ANY accepted sequence of inserts (any block length), inserting a key <= the last accepted key
-   panics -- inside a block through the assertion / index panics of insert_key, across a block boundary
-   through the assertion of find_shorter_str_in_between -- except in the class F11. *)
+(* Under the pinned shape of the ordering assertion (ORDER_FIXED, regenerated from Writer::insert_key):
+   after ANY accepted sequence of inserts (any block length), inserting a key <= the last accepted key
+   panics -- inside a block through the assertion of insert_key, across a block boundary through the
+   assertion of find_shorter_str_in_between.  No exception.  If the source goes back to the old shape,
+   `order_fixed_pinned` no longer holds and this proof breaks. *)
 Theorem C15_rejects_unordered : forall V (block_len : N) (st : wstate V) lk k,
-  reachable block_len st (Some lk) -> ble k lk = true -> ~ F11_state st k ->
-  exists p, insert_key st k = WPanic p.
-Proof. exact @rejects_unordered. Qed.
+  reachable ORDER_FIXED block_len st (Some lk) -> ble k lk = true ->
+  exists p, insert_key ORDER_FIXED st k = WPanic p.
+Proof. intros V bl st lk k. apply rejects_unordered. exact order_fixed_pinned. Qed.
+
+(* the source has exactly one of the two known shapes, for both repaired defects *)
+Theorem C15_code_shapes_known :
+  SST_ORDER_CHECK_BLOCK_START + SST_ORDER_CHECK_PREV_EMPTY = 1 /\ SST_RANGE_INVERTED_EMPTY + SST_RANGE_SLICE_UNGUARDED = 1.
+Proof. exact (conj order_shape_known range_shape_known). Qed.
+
+(* the old shape (model parameter false) rejected everything except the class F11 *)
+Theorem C15_rejects_unordered_old_shape : forall V (block_len : N) (st : wstate V) lk k,
+  reachable false block_len st (Some lk) -> ble k lk = true -> ~ F11_state st k ->
+  exists p, insert_key false st k = WPanic p.
+Proof. intros V bl st lk k. apply rejects_unordered_old. reflexivity. Qed.
+
+(* ---- inverted ranges ---- *)
+(* Under the pinned shape of file_slice_for_range (RANGE_FIXED) the block selection never panics, for any
+   dictionary, bounds and limit; and whatever sorted pairs it hands to the streamer, an inverted range
+   streams nothing, as the sorted map does. *)
+Theorem C15_ranges_never_panic : forall V (d : list (rblock V)) lo hi limit,
+  slice_for_range RANGE_FIXED d lo hi limit <> SlicePanic.
+Proof. intros V d lo hi limit. rewrite range_fixed_pinned. apply slice_never_panics. Qed.
+
+Theorem C15_inverted_range_empty : forall V (lo hi : bound) (l : smap V), range_inverted lo hi = true ->
+  ssorted (keys l) = true -> stream_loop lo hi l = [] /\ sm_range lo hi l = [].
+Proof. exact @inverted_range_streams_nothing. Qed.
 
 (* ---- non-vacuity ---- *)
 Example ex_keys : list bytes := [[]; [0]; [0; 255]; [97]; [97; 98; 99; 100; 101; 102; 103; 104; 105; 106; 107; 108; 109; 110; 111; 112; 113]; [97; 98; 255]].
@@ -109,32 +134,43 @@ Example ex_amb_pair : (amb_keep, amb_add) = (1, 0). Proof. vm_compute. reflexivi
 (* the ambiguity is real: the header (1, 0) is written as the byte that the reader takes for VINT_MODE *)
 Example ex_amb_misread : read_keep_add (encode_keep_add 1 0 ++ [7; 7]) = Some (7, 7, []). Proof. vm_compute. reflexivity. Qed.
 
-(* ---- F11: the ordering assertion of Writer::insert_key lets a duplicate of the empty key through ---- *)
+(* ---- F11 (repaired in /repo; witness about the OLD shape, model parameter false): the ordering
+   assertion `|| previous_key.is_empty()` lets a duplicate of the empty key through ---- *)
 Theorem C15_rejects_unordered_refuted :
   ssorted [[]; []; [97]] = false /\ f11_class SST_BLOCK_LEN [[]; []; [97]] = true /\
-  first_reject SST_BLOCK_LEN w_init [([], tt); ([], tt); ([97], tt)] 0 = None /\
-  option_map snd (build SST_BLOCK_LEN [([], tt); ([], tt); ([97], tt)]) = Some 3.
+  first_reject false SST_BLOCK_LEN w_init [([], tt); ([], tt); ([97], tt)] 0 = None /\
+  option_map snd (build false SST_BLOCK_LEN [([], tt); ([], tt); ([97], tt)]) = Some 3.
 Proof. vm_compute. repeat split; reflexivity. Qed.
 
-(* ---- F151: an inverted range whose bounds fall into different blocks panics instead of yielding [] ---- *)
+(* regression: the pinned shape rejects the same stream at its second key *)
+Example ex_f11_now_rejected : first_reject ORDER_FIXED SST_BLOCK_LEN w_init [([], tt); ([], tt); ([97], tt)] 0 = Some 1.
+Proof. vm_compute. reflexivity. Qed.
+
+(* ---- F151 (repaired in /repo; witness about the OLD shape, model parameter false): an inverted range whose
+   bounds fall into different blocks panics instead of yielding [] ---- *)
 Definition f151_kvs : smap N := [([97], 1); ([98], 2); ([99], 3); ([100], 4)].
 Theorem C15_inverted_range_refuted :
   sm_range (Incl [100]) (Excl [97]) f151_kvs = [] /\
   f151_class 0 f151_kvs (Incl [100]) (Excl [97]) = true /\
-  with_dict 0 f151_kvs (fun d _ => match range d (Incl [100]) (Excl [97]) None with None => true | Some _ => false end) = true /\
-  (* inside one block the same range streams nothing *)
-  with_dict SST_BLOCK_LEN f151_kvs (fun d _ => match range d (Incl [100]) (Excl [97]) None with Some [] => true | _ => false end) = true.
+  with_dict 0 f151_kvs (fun d _ => match range false d (Incl [100]) (Excl [97]) None with None => true | Some _ => false end) = true /\
+  (* inside one block the same range streamed nothing *)
+  with_dict SST_BLOCK_LEN f151_kvs (fun d _ => match range false d (Incl [100]) (Excl [97]) None with Some [] => true | _ => false end) = true.
 Proof. vm_compute. repeat split; reflexivity. Qed.
+
+(* regression: the pinned shape streams nothing there *)
+Example ex_f151_now_empty :
+  with_dict 0 f151_kvs (fun d _ => match range RANGE_FIXED d (Incl [100]) (Excl [97]) None with Some [] => true | _ => false end) = true.
+Proof. vm_compute. reflexivity. Qed.
+
+Example ex_reachable_f11 : exists st, reachable false SST_BLOCK_LEN st (Some []) /\ F11_state st [] /\ exists st', insert_key (V := unit) false st [] = WOk st'.
+Proof.
+  eexists. split; [eapply (reach_step false SST_BLOCK_LEN _ None [] tt); [apply reach_init|vm_compute; reflexivity]|].
+  split; [vm_compute; repeat split; discriminate|]. eexists. vm_compute. reflexivity.
+Qed.
 
 Example ex_merge : heap_merge N.add [[([97], 1); ([99], 2)]; [([], 5); ([99], 10)]; []] = [([], 5); ([97], 1); ([99], 12)]
   /\ merge_ord_maps [[[97]; [99]]; [[]; [99]]; []] = [[1; 2]; [0; 2]; []].
 Proof. vm_compute. split; reflexivity. Qed.
-
-Example ex_reachable_f11 : exists st, reachable SST_BLOCK_LEN st (Some []) /\ F11_state st [] /\ exists st', insert_key (V := unit) st [] = WOk st'.
-Proof.
-  eexists. split; [eapply (reach_step SST_BLOCK_LEN _ None [] tt); [apply reach_init|vm_compute; reflexivity]|].
-  split; [vm_compute; repeat split; discriminate|]. eexists. vm_compute. reflexivity.
-Qed.
 
 Print Assumptions C15_vint_roundtrip.
 Print Assumptions C15_header_roundtrip.
@@ -152,4 +188,8 @@ Print Assumptions C15_lookups.
 Print Assumptions C15_ranges.
 Print Assumptions C15_merge.
 Print Assumptions C15_rejects_unordered.
+Print Assumptions C15_code_shapes_known.
+Print Assumptions C15_rejects_unordered_old_shape.
+Print Assumptions C15_ranges_never_panic.
+Print Assumptions C15_inverted_range_empty.
 Print Assumptions C15_inverted_range_refuted.
